@@ -136,6 +136,8 @@ func TestC11(t *testing.T) {
 				return rs
 			}
 			ra, rb := mk(a, 0), mk(b, cutAt)
+			// one record of the JSON file carries a body larger than any line buffer
+			rb[len(rb)/3].Body = bytes.Repeat([]byte("x"), 100000)
 			var m vegeta.Metrics
 			for i := 0; i < len(ra) || i < len(rb); i++ {
 				if i < len(ra) {
